@@ -27,6 +27,7 @@ import threading
 import time
 
 import common
+import pubscan
 from common import sx, unsx, names
 from vinegar.http import server as S
 from vinegar.request_handler import file as FH
@@ -151,7 +152,7 @@ class Rig:
         self.handlers = [RecHandler()] + [Proxy(i + 1, h) for i, h in enumerate(inner)]
         self.handlers.append(BoomHandler(len(self.handlers)))
         self.nh = len(self.handlers)
-        cls = S._DelegatingRequestHandler
+        cls = pubscan.handler_class_in_module(S)
         self._cls = cls
         self._orig_finish = cls.finish
         orig = cls.finish
@@ -173,7 +174,7 @@ class Rig:
             return orig_setup(handler)
         cls.setup = setup
         self.exclog = _ExcLog()
-        self.logger = logging.getLogger("vinegar.http.server")
+        self.logger = pubscan.module_loggers(S)[0]
         self._old = (self.logger.level, self.logger.propagate)
         self.logger.addHandler(self.exclog)
         self.logger.setLevel(logging.WARNING)
@@ -181,14 +182,14 @@ class Rig:
         self.base_threads = threading.active_count()
         self.server = S.HttpServer(self.handlers, "::1", 0)
         self.server.start()
-        self.port = self.server._server.server_address[1]
+        self.port = pubscan.base_server(self.server).server_address[1]
         # socketserver prints a traceback to stderr when a worker thread dies of an exception (e.g. the client
         # went away while http.server was writing); keep the check output clean, count them instead
         self.socketserver_errors = 0
 
         def handle_error(request, client_address):
             self.socketserver_errors += 1
-        self.server._server.handle_error = handle_error        # override on the INSTANCE
+        pubscan.base_server(self.server).handle_error = handle_error        # override on the INSTANCE
 
     def close(self):
         try:
